@@ -21,7 +21,26 @@ def run_c09(ctx):
     ctx.run_py("check_hash_log.py", [log, "{out}"], "C09-offline-python")
 
 
+def run_tree(prop):
+    def run(ctx):
+        env = {"RAYON_NUM_THREADS": "2"}
+        b = ctx.build("pm")
+        ctx.run_vh(b, prop, env_extra=env, tag=prop + "-pm-build")
+        for cfg in ("optimal", "full"):
+            b = ctx.build(cfg)
+            ctx.run_vh(b, prop, extra_args=["--rln-only"], env_extra=env, tag="%s-%s-build-rln-level" % (prop, cfg))
+    return run
+
+
 PLANS = {
+    "C06": {"level": "exploration", "run": run_tree("C06"),
+            "min_evaluations": {"quick": 20000, "thorough": 500000}, "min_distinct": {"quick": 2000, "thorough": 20000}},
+    "C07": {"level": "exploration", "run": run_tree("C07"),
+            "min_evaluations": {"quick": 100000, "thorough": 2000000}, "min_distinct": {"quick": 500, "thorough": 1000}},
+    "C08": {"level": "exploration", "run": run_tree("C08"),
+            "min_evaluations": {"quick": 10000, "thorough": 300000}, "min_distinct": {"quick": 1000, "thorough": 3000}},
+    "C15": {"level": "exploration", "run": run_tree("C15"),
+            "min_evaluations": {"quick": 20000, "thorough": 500000}, "min_distinct": {"quick": 1000, "thorough": 2000}},
     "C03": {"level": "exploration", "run": simple("C03"),
             "min_evaluations": {"quick": 5000, "thorough": 100000}, "min_distinct": {"quick": 100, "thorough": 200}},
     "C04": {"level": "exploration", "run": simple("C04"),
@@ -43,7 +62,7 @@ PLANS = {
 
 def setup(ctx):
     ok = True
-    for cfg in ["pm"]:
+    for cfg in ["pm", "optimal", "full", "arkzkey", "stateless"]:
         try:
             ctx.build(cfg)
         except BuildFailed as e:
